@@ -113,7 +113,16 @@ func (r *btreeRunner) Do(op []string) string {
 // btreeFRunner: the same B-tree instantiated with float64 keys.  The int keys of the protocol are mapped to
 // 1 + k*2^-40 (exact, order preserving, injective): neighbouring keys differ by a relative 1e-12, so any notion of
 // key equality looser than == (a tolerance, a rounding) merges them.  The answers must be those of the int tree.
-type btreeFRunner struct{ t *btree.BTree[float64, int] }
+// The VALUES of this instantiation are one-element slices (an uncomparable type: comparing two of them through an
+// interface panics), so nothing in the tree may depend on comparing values.
+type btreeFRunner struct{ t *btree.BTree[float64, []int] }
+
+func fval(v []int) int {
+	if len(v) == 0 {
+		return 0
+	}
+	return v[0]
+}
 
 func fkey(k int) float64    { return 1 + float64(k)/(1<<40) }
 func fkeyInv(x float64) int { return int(math.Round((x - 1) * (1 << 40))) }
@@ -121,14 +130,14 @@ func fkeyInv(x float64) int { return int(math.Round((x - 1) * (1 << 40))) }
 func (r *btreeFRunner) Do(op []string) string {
 	switch op[0] {
 	case "put":
-		r.t.Put(fkey(atoi(op[1])), atoi(op[2]))
+		r.t.Put(fkey(atoi(op[1])), []int{atoi(op[2])})
 		return "ok"
 	case "remove":
 		r.t.Remove(fkey(atoi(op[1])))
 		return "ok"
 	case "fillasc":
 		for a, i := atoi(op[1]), 0; i < atoi(op[2]); i++ {
-			r.t.Put(fkey(a+i), a+i)
+			r.t.Put(fkey(a+i), []int{a + i})
 		}
 		return "ok"
 	case "removeasc":
@@ -138,7 +147,7 @@ func (r *btreeFRunner) Do(op []string) string {
 		return "ok"
 	case "get":
 		v, ok := r.t.Get(fkey(atoi(op[1])))
-		return itoa(v) + " " + b2s(ok)
+		return itoa(fval(v)) + " " + b2s(ok)
 	case "size":
 		return itoa(r.t.Size())
 	case "isempty":
@@ -149,9 +158,9 @@ func (r *btreeFRunner) Do(op []string) string {
 		return "nohook"
 	case "traverse":
 		var items []string
-		r.t.Traverse(func(k float64, v int) {
+		r.t.Traverse(func(k float64, v []int) {
 			faultTick()
-			items = append(items, "["+itoa(fkeyInv(k))+","+itoa(v)+"]")
+			items = append(items, "["+itoa(fkeyInv(k))+","+itoa(fval(v))+"]")
 		})
 		return plist(items)
 	}
@@ -296,7 +305,7 @@ func init() {
 	}
 	kinds["btree"] = func(p []string) Runner {
 		if len(p) > 0 && p[0] == "f" {
-			return &btreeFRunner{btree.New[float64, int]()}
+			return &btreeFRunner{btree.New[float64, []int]()}
 		}
 		r := &btreeRunner{t: btree.New[int, int]()}
 		r.d.mk = func() decoy {
